@@ -136,6 +136,21 @@ Theorem c02_seek_then_read_to_end : forall f ops v i n,
 Proof. exact seek_then_read_to_end. Qed.
 Print Assumptions c02_seek_then_read_to_end.
 
+(* IndexedReader: io::Seek::seek(SeekFrom::Start(p)) is the gzi query followed by Reader::seek, and
+   its read_exact is std's default loop.  After ANY valid history, for every offset p the file's
+   index can express: the seek returns p, the position then told denotes p, and read_exact(n)
+   returns exactly D[p .. p+n) when that many bytes exist and UnexpectedEof otherwise. *)
+Theorem c02_indexed_reader_seek : forall f ops p n,
+  wf f -> total_csize f <= MAX_COMPRESSED_POSITION -> ops_valid f ops -> seeku_ok f p ->
+  let st := run_state true f (gzi_of f) (init f) ops in
+  let st1 := fst (seek_by_uncompressed_position true f (gzi_of f) st p) in
+  snd (seek_by_uncompressed_position true f (gzi_of f) st p) = Ok p /\
+  (exists v, virtual_position st1 = Ok v /\ denote f v = Some p) /\
+  snd (read_exact_std true st1 n)
+  = if p + n <=? total_dlen f then Ok (slice (concat (chunks f)) p n) else Err UnexpectedEof.
+Proof. exact indexed_reader_seek. Qed.
+Print Assumptions c02_indexed_reader_seek.
+
 (* WRITER SIDE.  The writer is C01's model NV.Bgzf.Writer (write / write_all / flush / try_finish
    over a sink that accepts every byte; DEFLATE is a parameter, the only premise being that
    level 0 expands a staging buffer by at most 15 bytes, as in C01).  Split ANY script at ANY
